@@ -45,6 +45,9 @@ def native(args, timeout=3600, stdin=None):
     return p
 
 
+INTERNAL_KINDS = {"inv-init", "inv-step", "sum-range", "sum-term", "lemma", "callee-pre", "bounds"}
+
+
 class Check:
     def __init__(self, pid, tier="quick", seed=0, level="proof"):
         self.pid = pid
@@ -158,6 +161,9 @@ class Check:
         for o in outs:
             if o.kind == "unsupported":
                 self.undecided.append((f"{self.pid}/{label}", f"outside supported subset: {o.note}"))
+                # structural obligations about this function ("returns on every path", recorded call shapes) are unreliable now
+                self.__dict__.setdefault("incomplete_funcs", set()).add(func)
+                self.__dict__.setdefault("incomplete_labels", set()).add(f"{self.pid}/{label}")
             else:
                 good.append(o)
         return good
@@ -224,6 +230,14 @@ class Check:
                 known_lines.append(f"KNOWN-FINDING: property={pid} {finding['what']}")
                 r.meta["known_finding"] = finding["id"]
                 continue
+            # a structural obligation (its goal is literally false: a Python-level check on explored paths / recorded calls) about a function
+            # whose exploration was incomplete says nothing: the code left the supported subset -> undecided, never a violation
+            inc_f = self.__dict__.get("incomplete_funcs", set())
+            inc_l = self.__dict__.get("incomplete_labels", set())
+            if r.status == "refuted" and (not T.is_sym(ob.goal) or z3.is_false(z3.simplify(ob.goal))) and (
+                    (ob.meta.get("func") is not None and ob.meta.get("func") in inc_f) or any(ob.name.startswith(l + "/") for l in inc_l)):
+                self.undecided.append((ob.name, "structural obligation of a function whose exploration left the supported subset"))
+                continue
             failing = None
             if replay and ob.meta.get("replay"):
                 failing = self.replay(ob, r)
@@ -237,10 +251,15 @@ class Check:
                 path = self.write_replay(ob, r, failing)
                 violations.append(f"VIOLATION property={pid} replay={path}")
                 r.meta["violation"] = True
-            elif r.status == "refuted" and (ob.name in locked or ob.meta.get("case_of") in locked):
+            elif r.status == "refuted" and (ob.name in locked or ob.meta.get("case_of") in locked) and ob.kind not in INTERNAL_KINDS:
+                # a statement taken from the property (postcondition, frame, escape) that was proved on the unchanged tree is refuted now
                 path = self.write_replay(ob, r, failing)
                 violations.append(f"VIOLATION property={pid} replay={path} no-failing-input-found")
                 r.meta["violation"] = True
+            elif r.status == "refuted" and ob.kind in INTERNAL_KINDS:
+                # an internal step of the proof (loop invariant, reduction match, lemma, callee precondition) fails and the native search found no
+                # failing input: the code may simply compute the same thing another way -- "not shown to hold", not a violation
+                self.undecided.append((ob.name, f"proof step ({ob.kind}) refuted, no failing input found natively: the proof does not go through for this code"))
             else:
                 reason = r.reason or ("refuted by the solver but not on the baseline lock and no native failure" if r.status == "refuted" else "unknown")
                 self.undecided.append((ob.name, reason))
@@ -510,7 +529,7 @@ def find_sites(term):
     return out
 
 
-def match_sum(chk, name, site_app, ps, a, b, hyps, func=None, meta=None, assumptions=(), scale=None):
+def match_sum(chk, name, site_app, ps, a, b, hyps, func=None, meta=None, assumptions=(), scale=None, toplevel=False):
     """Obligations that the code's reduction `site_app` (a sum) denotes sum_{t=a}^{b} g(t) for the prefix sum `ps`:
         sum-range : the code's range has the same number of terms (after the shift t_code = t_spec - a + lo_code), or the extra
                     terms on either side are all zero (sum-extra-zero);
@@ -527,7 +546,10 @@ def match_sum(chk, name, site_app, ps, a, b, hyps, func=None, meta=None, assumpt
     shift = lo_c - a
     # same number of terms (empty ranges on both sides are fine)
     same = z3.Or(z3.And(hi_c - lo_c == b - a), z3.And(hi_c < lo_c, b < a))
-    chk.add(f"{name}/sum-range", list(hyps), same, kind="sum-range", func=func, meta=meta, assumptions=assumptions)
+    # toplevel: the reduction is the function's result and the specification sum is the property's statement -- the two matching obligations then
+    # are postconditions (kind "post"), not internal proof steps
+    k_range, k_term = ("post", "post") if toplevel else ("sum-range", "sum-term")
+    chk.add(f"{name}/sum-range", list(hyps), same, kind=k_range, func=func, meta=meta, assumptions=assumptions)
     # signature used by recorded findings of the form "the series stops one term early": same start, exactly the last term missing
     sig = chk.add(f"{name}/sum-range#signature-last-term-missing", list(hyps), z3.And(hi_c - lo_c == b - a - 1, b >= a), kind="signature", assumptions=assumptions)
     sig.meta["signature_for"] = f"{chk.pid}/{name}/sum-range"
@@ -535,7 +557,7 @@ def match_sum(chk, name, site_app, ps, a, b, hyps, func=None, meta=None, assumpt
     if scale is not None:
         # homogeneity: scale * sum_t c(t) = sum_t scale * c(t)
         term_c = T.zr(scale) * term_c
-    chk.add(f"{name}/sum-term", list(hyps) + [t >= a, t <= b], term_c == T.zr(ps.g(t)), kind="sum-term", func=func, meta=meta, assumptions=assumptions)
+    chk.add(f"{name}/sum-term", list(hyps) + [t >= a, t <= b], term_c == T.zr(ps.g(t)), kind=k_term, func=func, meta=meta, assumptions=assumptions)
     if scale is not None:
         return T.zr(scale) * site_app == ps.range_sum(a, b)
     return site_app == ps.range_sum(a, b)
